@@ -2,14 +2,14 @@
 import random
 
 TYPES = ["i8", "u8", "u32", "i64", "String", "(u8, u8)", "Vec<u8>", "Option<u8>", "bool"]
-RET_TYPES = ["i8", "u32", "String", "Vec<u8>", "Option<u8>", "(u8, i8)", "bool"]
+RET_TYPES = ["i8", "u32", "String", "Vec<u8>", "Option<u8>", "(u8, i8)", "bool", "()"]
 NAMES = ["a", "b", "c", "x", "y", "n", "val", "key", "item", "count"]
 METHOD_NAMES = ["inc", "add", "get", "put", "swap", "reset", "total", "push", "peek", "mix", "scan", "fold_it", "at_most", "q1", "zed"]
 
 
 def default_of(ty):
     return {"i8": "0", "u8": "0", "u32": "0", "i64": "0", "String": "String::new()", "(u8, u8)": "(0, 0)", "Vec<u8>": "Vec::new()",
-            "Option<u8>": "None", "bool": "false", "(u8, i8)": "(0, 0)"}.get(ty, "Default::default()")
+            "Option<u8>": "None", "bool": "false", "(u8, i8)": "(0, 0)", "()": "()"}.get(ty, "Default::default()")
 
 
 def gen_params(rng, k, used=None):
@@ -69,6 +69,9 @@ def probe_impl(lib, slf=False, generic_actor=False):
     pub fn gen<T: Into<i8> + Send + 'static>(&mut self, t: T) -> i8 { 0 }
     pub fn vgen<T: Into<i8> + Send + 'static>(&mut self, t: T) {}
     pub fn stat(x: u8) -> u8 { x }
+    pub fn note(&self, n: i8) {}
+    pub fn unit(&mut self, n: i8) -> () {}
+    pub fn unit0(&self) -> () {}
     fn private(&self) {}
     %s
     %s
@@ -137,6 +140,7 @@ def harness_impl(lib):
     pub fn hold(&mut self) {}
     pub fn boom(&mut self) {}
     pub fn log(&self) -> Vec<String> { Vec::new() }
+    pub fn unit(&mut self, caller: u32, seq: u32) -> () {}
     %s
 }""" % asy
     return {"item": item, "actor_ty": "Probe"}
